@@ -305,4 +305,67 @@ claim is made for them). -/
 theorem tie_mr_finish :
     "call WithWorkers(len(fns))" ∈ mrFinishCalls ∧ "call WithWorkers(len(fns))" ∈ mrFinishVoidCalls := by decide
 
+/-! ## round 5: the ORDER OF EFFECTS, typed — the `instr` column of every site program against the source
+
+The skeleton ties above pin the `tags` column; which instruction a row carries was a hand association.  The
+extractor now reads the permit / wait-group / user-call effects of every site function from the AST (a send
+on the limiting channel = acquire, inside a `select` with `default` = tryAcquire, a receive = release /
+tryRelease, `TryBorrow`/`Return`, `Lock`/`Unlock`, `Add`/`Done`/`Wait`, the call of the guarded function) as a
+typed list in syntactic order; the list of effects of the model's rows (`Prog.effects`, from the `instr` column,
+control-flow rows dropped) has to be equal. -/
+
+def toX : GoZero.C05.Eff → GoZero.Extracted.C05.Eff
+  | .acquire => .acquire | .tryAcquire => .tryAcquire | .release => .release | .tryRelease => .tryRelease
+  | .wgAdd => .wgAdd | .wgDone => .wgDone | .wgWait => .wgWait | .user => .user
+
+def effX (p : Prog) : List GoZero.Extracted.C05.Eff := p.effects.map toX
+
+/-- `Limit`: Borrow = one blocking send, TryBorrow = one non-blocking send, Return = one non-blocking receive
+(the `user` between them is the caller's guarded code). -/
+theorem tie_eff_limit : effX Programs.limitClient = borrowEff ++ tryBorrowEff ++ [.user] ++ returnEff := by decide
+
+/-- `TimeoutLimit.Borrow` takes a permit only through the two `TryBorrow` calls; `Return` gives it back through
+`limit.Return`; `TryBorrow` is one `TryBorrow`. -/
+theorem tie_eff_timeoutLimit :
+    effX Programs.timeoutLimitClient = tlBorrowEff ++ [.user] ++ tlReturnEff ∧ tlTryBorrowEff = [.tryAcquire] := by decide
+
+/-- `TaskRunner`: Wait; Schedule = Add, acquire, (deferred) release, Done, task; ScheduleImmediately = Add,
+tryAcquire, (busy) Done, (deferred) release, Done, task — release BEFORE Done in both. -/
+theorem tie_eff_runner : effX Programs.runner = trWaitEff ++ scheduleEff ++ scheduleImmEff := by decide
+
+theorem tie_eff_maxConns : effX Programs.maxConns = maxConnsEff := by decide
+
+theorem tie_eff_executeMappers : effX Programs.executeMappers = executeMappersEff := by decide
+
+theorem tie_eff_walkLimited : effX Programs.walkLimited = walkLimitedEff := by decide
+
+theorem tie_eff_routineGroup : effX Programs.routineGroup = rgWaitEff ++ rgRunEff ++ rgRunSafeEff := by decide
+
+theorem tie_eff_guard : effX Programs.barrierGuard = guardEff := by decide
+
+/-- **Forwarded argument lists of the delegating entry points**: every public mr entry point hands ITS OWN `opts...`
+(unchanged, spread) down to where `buildOptions(opts...)` is called; `Finish` / `FinishVoid` ask for exactly
+`len(fns)` workers; `TimeoutLimit.TryBorrow/Return` delegate to the inner `Limit` without arguments; `Barrier.Guard`
+hands its own mutex and `fn` to `Guard`; `WorkerGroup.Start` runs `wg.job`; `MaxConnsHandler(n)` builds `NewLimit(n)`;
+`Walk` hands `fn` and the options it built to `walkLimited`. A dropped or replaced argument here is invisible to the
+site programs (mutation m4: `MapReduceVoid` without `opts...`).  For the mr entry points only the option argument (last
+position, spread) and the arity are pinned: how mapper / reducer are wrapped is not C05's business. -/
+theorem tie_forwarding :
+    mrMapReduceFwd.getLast? = some "opts..." ∧ mrMapReduceFwd.length = 5
+    ∧ mrMapReduceChanFwd.getLast? = some "opts..." ∧ mrMapReduceChanFwd.length = 5
+    ∧ mrMapReduceVoidFwd.getLast? = some "opts..." ∧ mrMapReduceVoidFwd.head? = some "generate" ∧ mrMapReduceVoidFwd.length = 4
+    ∧ mrFinishFwd.getLast? = some "WithWorkers(len(fns))" ∧ mrFinishFwd.length = 4
+    ∧ mrFinishVoidFwd.getLast? = some "WithWorkers(len(fns))" ∧ mrFinishVoidFwd.length = 3
+    ∧ mrForEachFwd = ["opts..."] ∧ mrCoreFwd = ["opts..."]
+    ∧ tlTryBorrowFwd = [] ∧ tlReturnFwd = []
+    ∧ barrierGuardFwd = ["&b.lock", "fn"]
+    ∧ workerGroupFwd = ["wg.job"]
+    ∧ maxConnsNewLimitFwd = ["n"]
+    ∧ fxWalkLimitedFwd = ["fn", "option"] := by decide
+
+/-- `rescue.Recover(cleanups...)`: all clean-ups first, then `recover()` and the report (`report_after_cleanup`). -/
+theorem tie_rescue_order :
+    rescueRecoverStmts = ["for _, cleanup := range cleanups { cleanup() }",
+                          "if p := recover(); p != nil { logx.ErrorStack(p) }"] := by decide
+
 end GoZero.C05.Tie
